@@ -16,6 +16,8 @@ const RELS: [&str; 6] = ["=", "!=", "<", "<=", ">", ">="];
 pub fn comparisons(quick: bool) -> Vec<String> {
     let ops_all = [
         "X$i", "1", "-1", "n$i", "X$i + 1", "-X$i", "-(-1)", "2 * Y$i", "X", "#inf", "#sup", "g$g", "a", "X$s", "s$s",
+        // placeholders that occur only as operands of an arithmetic term
+        "m$i + 1", "1 - k$i", "-j$i",
     ];
     let mut out = vec![];
     for a in ops_all {
